@@ -8,7 +8,7 @@
      root --Pick block--> block b --Pick index--> expression i (i % NBlocks = b)
    and the invariant Holds is evaluated in every "expression" state, on all documents at once.
    The heavy tables live in the variable g, which VIEW hides from fingerprinting. *)
-EXTENDS Families, Strict
+EXTENDS Families, Strict, Parser
 
 CONSTANTS NBlocks, Stride, Stride3, Seed
 
@@ -195,6 +195,16 @@ SliceThm(e, d) ==
                     /\ (e[3] = Identity => o = OkS(Arr(DropNull([k \in 1..Len(SlicePositions(n, parts)) |-> l[2][SlicePositions(n, parts)[k] + 1]])))))
   /\ (e[1] = "IndexExpression" /\ e[3][1] = "Index" /\ Len(e[3]) = 3 => o = OkS(Null))
 
+(* C03: the declarative precedence relation (Unparse) and the Pratt machine (Parser) agree: the minimal and
+   the fully parenthesised spelling of every tree are sentences of the grammar and parse back to a tree
+   with the same meaning (structurally identical, or with equal outcomes on every document of the family --
+   some groupings are interchangeable: a.b[0] is a.(b[0]); (a.b)[0] is another tree with the same meaning) *)
+RoundTrip(e, toks, docs) ==
+  IsBad(toks) \/ (/\ Grammatical(toks)
+                  /\ LET r == ParseToks(toks) IN
+                     r[1] = "ok" /\ (r[2] = e \/ \A d \in 1..Len(docs) : Outcomes(r[2], docs[d]) = Outcomes(e, docs[d])))
+PrecThm(e, docs) == RoundTrip(e, UnparseMin(e), docs) /\ RoundTrip(e, UnparseFull(e), docs) /\ RoundTrip(e, UnparseSt(e, StQuoted), docs)
+
 Thm(e, d) == CASE Family = "C01" -> CoreThm(e, d)
                [] Family \in {"C08", "C08i"} -> SliceThm(e, d)
                [] Family = "C02" -> ProjThm(e, d)
@@ -204,5 +214,6 @@ Thm(e, d) == CASE Family = "C01" -> CoreThm(e, d)
 
 Holds == idx >= 0 =>
            IF Family = "C11" THEN LET c == CtxAt(g, idx) x == BaseAt(g, idx) IN \A d \in 1..Len(g.docs) : ErrThm(c, x, g.docs[d])
+           ELSE IF Family = "C03" THEN PrecThm(ExprAt(g, idx), g.docs)
            ELSE LET e == ExprAt(g, idx) IN \A d \in 1..Len(g.docs) : Thm(e, g.docs[d])
 =============================================================================
